@@ -65,14 +65,15 @@ def core_worker(ctx, nc, nd):
 
 def nuts_worker(ctx, nc, nd):
     A = 'NUTSChain::run_progress'
-    b = ctx.anchor(A, name='run_progress', self_head='nuts::NUTSChain', container='inherent')
+    b = ctx.helper('nuts.chain_run_progress')
     if b is None:
         ctx.unknown('C10.sib.nuts', A, 'anchor', why='anchor not found')
         return
-    ev = ctx.evaluate(b, no_inline=('nuts::NUTSChain::step', 'nuts::find_reasonable_epsilon'))
+    ev = ctx.evaluate(b, no_inline=('nuts::NUTSChain::step', ctx.helper_key('nuts.fre', 'nuts::find_reasonable_epsilon')))
     sp = b['sp']
     ret = assume_ok(ev.ret_term)
-    loops = [ls for ls in ev.vf.loops if ls.kind == 'for' and not ls.ctx and ls.owner == 'nuts::NUTSChain::run_progress']
+    me = strip_generics(b['path'])
+    loops = [ls for ls in ev.vf.loops if ls.kind == 'for' and not ls.ctx and ls.owner == me]
     steps = ev.events(lambda e: e.key == 'nuts::NUTSChain::step')
     if len(loops) != 1 or len(steps) != 1:
         ctx.unknown('C10.sib.nuts', A, 'loop', why='expected one run loop with one step (found %d loops, %d step sites)' % (len(loops), len(steps)), sp=sp)
@@ -174,7 +175,7 @@ def reporters(ctx, nc, nd):
             continue
         cb = ctx.facts.body(cl[0]['def'])
         canon[tag] = thireq.normalise(thireq.inline_closures(cb.get('thir'), ctx.facts))
-        no_inl = ('core::run_chain_progress', 'stats::collect_rhat', 'nuts::NUTSChain::run_progress', 'stats::split_rhat_mean_ess', 'stats::basic_stats')
+        no_inl = ('core::run_chain_progress', 'stats::collect_rhat', ctx.helper_key('nuts.chain_run_progress', 'nuts::NUTSChain::run_progress'), 'stats::split_rhat_mean_ess', 'stats::basic_stats')
         ev = ctx.evaluate(b, no_inline=no_inl)
         owner = [ls for ls in ev.vf.loops if ls.kind == 'loop' and (ls.owner or '').endswith('{spawned}') and not ls.ctx]
         if len(owner) != 1:
@@ -257,7 +258,8 @@ def stats_from_returned(ctx, nc, nd):
     A = 'NUTS::run_progress'
     b = ctx.anchor(A, name='run_progress', self_head='nuts::NUTS', container='inherent')
     if b is not None:
-        ev = ctx.evaluate(b, no_inline=('nuts::NUTSChain::run_progress', 'stats::collect_rhat', fromkey), tag='sfr')
+        crp = ctx.helper_key('nuts.chain_run_progress', 'nuts::NUTSChain::run_progress')
+        ev = ctx.evaluate(b, no_inline=(crp, 'stats::collect_rhat', fromkey), tag='sfr')
         ret = assume_ok(ev.ret_term)
         st = ev.events(lambda e: e.key == 'std::convert::From::from' and e.fn and 'RunStats' in (e.fn.get('resolved_path') or ''))
         ok = False
@@ -267,7 +269,7 @@ def stats_from_returned(ctx, nc, nd):
             ok = ret[1][1] is st[0].res and (arg is smp or arg is T.app('from_shape', T.app('dims', smp), smp))
         ctx.check('C10.stats_from_returned.nuts', A, 'stats', ok, expected='(sample, RunStats::from(view of sample))', found=show(ret)[:300], sp=b['sp'],
                   why='diagnostics must equal those computed from the returned draws')
-        workers = ev.events(lambda e: e.key == 'nuts::NUTSChain::run_progress')
+        workers = ev.events(lambda e: e.key == crp)
         okw = len(workers) == 1 and workers[0].args[1] is nc and workers[0].args[2] is nd
         ctx.check('C10.fwd.nuts', A, 'fwd', okw, expected='chain.run_progress(n_collect, n_discard, tx)', found='; '.join(show(a) for e in workers for a in e.args[1:3]), sp=b['sp'],
                   why='arguments forwarded in order')
